@@ -245,21 +245,25 @@ void h_tdwalk(void) {
    started by a cancel of an ancestor G of the parent P; the propagator's steps are the contract proved in dissem.protocol / td.walk (epoch advance first, then every list once:
    marks under the list mutex, epoch sync after the marks).  Lists: LP holds P, LB is the binder's own (they may be the same list). */
 static struct tgc G, Other, P, C; static struct clist LP_, LB_; struct clist *LP, *LB; bool desc, reg, binder_holds;
-int pi_phase; bool markedP, syncedP, markedB, syncedB;     /* 0 not started, 1 in flight, 2 complete */
+int pi;  bool p_first;                                      /* progress of the propagation: 0 not started, 1 epoch advanced, 2 first list marked, 3 first list synced, 4 second list marked, 5 complete */
 static void walk_marks(struct clist *l) {                   /* one list walk: everything registered in the list that descends from G gets marked (the chain up to G) */
     if (l == LP && desc) P.my_cancellation_requested = 1;
     if (l == LB && reg && C.my_parent == &P && desc) { C.my_cancellation_requested = 1; P.my_cancellation_requested = 1; }
 }
-static void pi_step(void) {
-    if (pi_phase == 0) { if (PROP_HOLDS_BINDER_MUTEX && binder_holds) return; G.my_cancellation_requested = 1; the_context_state_propagation_epoch++; pi_phase = 1; return; }
-    if (pi_phase != 1) return;
-    bool pickP = nondet_bool();
-    if (LP == LB) { if (!markedP) { walk_marks(LP); markedP = markedB = true; } else if (!syncedP) { LP->epoch = the_context_state_propagation_epoch; syncedP = syncedB = true; } }
-    else if (pickP ? !syncedP : syncedB) { if (!markedP) { walk_marks(LP); markedP = true; } else if (!syncedP) { LP->epoch = the_context_state_propagation_epoch; syncedP = true; } }
-    else { if (!markedB) { walk_marks(LB); markedB = true; } else if (!syncedB) { LB->epoch = the_context_state_propagation_epoch; syncedB = true; } }
-    if (syncedP && syncedB) pi_phase = 2;
+static void pi_advance(int to) {                            /* the steps are taken in order; the order of the two lists is arbitrary (p_first) */
+    struct clist *l1 = p_first ? LP : LB, *l2 = p_first ? LB : LP;
+    if (pi < 1 && to >= 1) { G.my_cancellation_requested = 1; the_context_state_propagation_epoch++; pi = 1; }
+    if (pi < 2 && to >= 2) { walk_marks(l1); pi = 2; }
+    if (pi < 3 && to >= 3) { l1->epoch = the_context_state_propagation_epoch; pi = 3; }
+    if (pi < 4 && to >= 4) { if (l2 != l1) walk_marks(l2); pi = 4; }
+    if (pi < 5 && to >= 5) { l2->epoch = the_context_state_propagation_epoch; pi = 5; }
 }
-static void interfere(void) { if (binder_holds && PROP_HOLDS_BINDER_MUTEX && pi_phase == 1) return; for (int i = 0; i < 5; ++i) if (nondet_bool()) pi_step(); }
+#define PI_IN_FLIGHT (pi >= 1 && pi <= 4)
+static void interfere(void) {
+    int to = nondet_int(); __CPROVER_assume(to >= pi && to <= 5);
+    if (PROP_HOLDS_BINDER_MUTEX && binder_holds) { if (pi == 0) to = 0; }      /* a propagation that needs the mutex the binder holds cannot start */
+    pi_advance(to);
+}
 #define ATOMIC_LOAD_AT(site, f) ({ interfere(); (f); })
 #define ATOMIC_STORE_AT(site, f, v) do { uint32_t v_ = (v); interfere(); (f) = v_; } while (0)
 #define ATOMIC_XCHG_AT(site, f, v) (0)
@@ -268,7 +272,7 @@ static void interfere(void) { if (binder_holds && PROP_HOLDS_BINDER_MUTEX && pi_
 #define STUB_copy_fp_settings(a, b) ((void)0)
 #define STUB_bind_to_impl(a, b) ((void)0)
 /* the slow-path mutex: blocks while a propagation that holds the same mutex is in flight, and keeps a new one from starting */
-#define LOCK_MUTEX(m) do { interfere(); __CPROVER_assume(!(PROP_HOLDS_BINDER_MUTEX && pi_phase == 1)); binder_holds = true; } while (0)
+#define LOCK_MUTEX(m) do { interfere(); __CPROVER_assume(!(PROP_HOLDS_BINDER_MUTEX && PI_IN_FLIGHT)); binder_holds = true; } while (0)
 #define UNLOCK_MUTEX(m) do { binder_holds = false; interfere(); } while (0)
 #define LIST_PUSH_FRONT(l, c) do { __CPROVER_assert((l) == LB && (c) == &C, "C04.bind: the context is registered in the binding thread's list"); reg = true; } while (0)
 void register_with(struct tgc *ctx, struct thread_data *td);
@@ -284,12 +288,11 @@ void h_bind_ga(void) {
     P.my_parent = desc ? &G : &Other; P.my_context_list = LP; P.my_may_have_children = nondet_uchar(); P.my_cancellation_requested = 0;
     the_context_state_propagation_epoch = nondet_uintptr_t(); LP->epoch = nondet_uintptr_t(); LB->epoch = nondet_uintptr_t();
     __CPROVER_assume(the_context_state_propagation_epoch < ((uintptr_t)1 << 62) && LP->epoch <= the_context_state_propagation_epoch && LB->epoch <= the_context_state_propagation_epoch);
-    pi_phase = 0; markedP = syncedP = markedB = syncedB = false; reg = false; binder_holds = false;
-    if (nondet_bool()) { for (int i = 0; i < 5; ++i) pi_step(); __CPROVER_assume(pi_phase == 2); }        /* the propagation may also be long over */
+    pi = 0; p_first = nondet_bool(); reg = false; binder_holds = false;
+    if (nondet_bool()) pi_advance(5);                       /* the propagation may also be long over */
     C.my_parent = NULL; C.my_cancellation_requested = 0; C.my_state = state_locked; C.my_traits.fp_settings = nondet_bool(); C.my_traits.bound = true; C.my_context_list = NULL;
     bind_to_impl(&C, &td);
-    for (int i = 0; i < 5; ++i) pi_step();                  /* let the propagation finish */
-    __CPROVER_assume(pi_phase == 2);
+    pi_advance(5);                                          /* let the propagation finish */
     OBLIGATION(C.my_parent == &P && reg && C.my_context_list == LB && !binder_holds, "C04.bind: the context is attached beneath the running context and registered in the binder's list; the slow-path mutex is released");
     OBLIGATION(!desc || (P.my_cancellation_requested == 1 && C.my_cancellation_requested == 1), "C04.bind: once the cancel of a grand-ancestor and the binding have both completed, the new context is cancelled like its parent - whatever the interleaving of the propagation with the speculative copy, the registration, the epoch check and the slow path");
     OBLIGATION(desc || C.my_cancellation_requested == 0, "C04.bind: a context bound beneath a tree that is not cancelled stays uncancelled");
